@@ -239,8 +239,44 @@ def single_def(func: Func, name: str) -> Optional[ast.expr]:
         if idx + 1 < len(block):
             comp = fold_accumulator(name, vals[0], block[idx + 1])
             if comp is not None:
-                return comp
-    return vals[0]
+                return inline_new_expr_calls(func, comp)
+    return inline_new_expr_calls(func, vals[0])
+
+
+def inline_new_expr_calls(func: Func, expr: ast.expr, depth: int = 0) -> ast.expr:
+    """calls of one-expression helpers that the reference tree does not have (a lambda that became a named nested
+    function, an extracted predicate) are replaced by their body: the definition reads as it did before the extraction"""
+    import copy
+
+    if not _NEW_FUNCS or _PRG is None or depth > 2:
+        return expr
+
+    class T(ast.NodeTransformer):
+        def visit_Call(self, call: ast.Call) -> ast.AST:
+            self.generic_visit(call)
+            q = _resolve(func, call)
+            if q not in _NEW_FUNCS or call.keywords or any(isinstance(a, ast.Starred) for a in call.args):
+                return call
+            target = _PRG.funcs.get(q)
+            if target is None or isinstance(target.node, ast.Lambda):
+                return call
+            body = [s for s in target.node.body if not (isinstance(s, ast.Expr) and isinstance(s.value, ast.Constant))]
+            if len(body) != 1 or not isinstance(body[0], ast.Return) or body[0].value is None:
+                return call
+            params = [a.arg for a in target.node.args.posonlyargs + target.node.args.args]
+            if params and params[0] in ("self", "cls"):
+                params = params[1:]
+            if len(params) != len(call.args):
+                return call
+            bind = dict(zip(params, call.args))
+
+            class S(ast.NodeTransformer):
+                def visit_Name(self, n: ast.Name) -> ast.AST:
+                    return copy.deepcopy(bind[n.id]) if isinstance(n.ctx, ast.Load) and n.id in bind else n
+
+            return inline_new_expr_calls(func, S().visit(copy.deepcopy(body[0].value)), depth + 1)
+
+    return T().visit(copy.deepcopy(expr))
 
 
 def resolved(func: Func, expr: Optional[ast.expr]) -> Optional[ast.expr]:
